@@ -212,6 +212,27 @@ def run_property(pid, tier="quick", seed=0, jobs=None):
                                tree=_tree_sha(), rerun=f"./check {pid} --tier {tier}"), f, indent=1, default=str)
             violations.append((f"bounded:{b['name']}", path, True))
 
+    # thorough tier: the statement-level search of the real API also runs when every obligation was discharged
+    # (a labelled bounded cross-check of the contracts themselves; a hit is a real failing input)
+    cross = None
+    if tier == "thorough" and hasattr(mod, "witness_search") and not violations:
+        t1 = time.time()
+        try:
+            witness_cache["w"] = mod.witness_search(tier, seed)
+        except Exception as e:
+            witness_cache["w"] = None
+            errors.append(f"witness search crashed: {type(e).__name__}: {e}")
+        cross = dict(name="statement-level-search", function="public API of the property (contracts/oracles, props witness_search)",
+                     bound="the property's own small input space (see props module)", cases=1, failures=1 if witness_cache.get("w") else 0,
+                     seconds=round(time.time() - t1, 2), label="bounded - never counted as proved")
+        if witness_cache.get("w"):
+            path = os.path.join("replay", f"{pid}-search.json")
+            with open(os.path.join(VERIF, path), "w") as f:
+                json.dump(dict(property=pid, obligation="statement-level-search",
+                               verdict="every deductive obligation was discharged, but the statement-level search of the real code found a failing input (a gap in the contracts)",
+                               witness_from_search=witness_cache["w"], reproduced_on_real_code=True, tree=_tree_sha(),
+                               rerun=f"./check {pid} --tier thorough"), f, indent=1, default=str)
+            violations.append(("statement-level-search", path, True))
     unknown_ids = [k for k, st in id_status.items() if st == "unknown"]
     # An undecided obligation is not a violation; but the bounded search of the real functions against
     # the executable statement may turn it into one (DESIGN 4.2 step 3).
@@ -262,7 +283,7 @@ def run_property(pid, tier="quick", seed=0, jobs=None):
         refuted=sorted(refuted_ids), unknown=sorted(unknown_ids),
         bounded=[dict(name=b["name"], function=b["function"], bound=b["bound"], cases=b.get("cases", 0),
                       failures=len(b.get("failures", [])), seconds=round(b.get("seconds", 0), 2),
-                      label="bounded - never counted as proved") for b in bounded_results],
+                      label="bounded - never counted as proved") for b in bounded_results] + ([cross] if cross else []),
         samples=samples,
         tree_sha=_tree_sha(),
         known_findings_reproduced=known_lines,
